@@ -217,7 +217,8 @@ pub fn run_c14(tier: &str, seed: u64) -> Report {
     let r = parallel(items.len(), util::threads(), |i, r| {
         let (p, j) = items[i];
         let mut rng = Rng::new(seed, "c14", (p as u64) << 32 | j as u64);
-        let ops = random_history(&mut rng, 12);
+        // mostly short histories; every 16th one is long (many more claims than any initial map capacity)
+        let ops = random_history(&mut rng, if j % 16 == 7 { 60 } else { 12 });
         let c = C14Case { p, key: pools.key(p, j % pools.count(p)), ops };
         c14_eval(&c, r);
     });
@@ -265,7 +266,7 @@ pub fn replay_c14(case: &Value) -> Report {
     r
 }
 
-pub const RULE_C14: &str = "seeded random histories of 0..12 set_claim/remove_claim operations on GenericBuilder (6000 on v4.local, 100-300 on each other protocol; thorough 2e5 / 3e3-2e4) plus a fixed corner catalogue: keys = non-empty Unicode (escapes, NUL, non-BMP, 200-byte keys, near-reserved names, keys equal to a member name inside their own value); values = JSON trees of depth <= 5 (i64/u64 extremes, exact short decimals, empty containers, null), native Rust values through Serialize (structs, tuples, Option, Vec, BTreeMap, enums, char, bytes) and registered claims through their typed constructors; the token is parsed back with a validator-free GenericParser and the whole object compared (serde_json equality) with a model map (last write wins, remove deletes) built by the harness. distinct_nontrivial = distinct (protocol, #ops, #sets, #members, value-shape signature) that built, parsed and compared equal";
+pub const RULE_C14: &str = "seeded random histories of 0..12 (every 16th: 0..60) set_claim/remove_claim operations on GenericBuilder (6000 on v4.local, 100-300 on each other protocol; thorough 2e5 / 3e3-2e4) plus a fixed corner catalogue: keys = non-empty Unicode (escapes, NUL, non-BMP, 200-byte keys, near-reserved names, keys equal to a member name inside their own value); values = JSON trees of depth <= 5 (i64/u64 extremes, exact short decimals, empty containers, null), native Rust values through Serialize (structs, tuples, Option, Vec, BTreeMap, enums, char, bytes) and registered claims through their typed constructors; the token is parsed back with a validator-free GenericParser and the whole object compared (serde_json equality) with a model map (last write wins, remove deletes) built by the harness. distinct_nontrivial = distinct (protocol, #ops, #sets, #members, value-shape signature) that built, parsed and compared equal";
 
 // ==========================================================================================
 // C15
